@@ -910,7 +910,7 @@ Proof.
   - split; [repeat constructor | eauto].
   - split; [repeat constructor | eauto].
   - split; [repeat constructor|]. left. exists 2%nat, 9%nat. split; [reflexivity|].
-    eexists. split; [reflexivity|]. left. split; [reflexivity | eauto].
+    exists (mknode HMust [5%nat] false). split; [reflexivity|]. left. split; [reflexivity | exists 5%nat; reflexivity].
   - split; [repeat constructor | eauto].
 Qed.
 Lemma ex_C_void : void_cfg RaiseSound.ex_C.
@@ -929,17 +929,17 @@ Proof.
   - assert (E : exists c' evs, eval al_G RaiseSound.ex_C 30 (mkdyn true true 0 0 0) 1%nat (mkcur [97; 44; 98] pos0)
                  = Res (Exc (EParse (WRule 2%nat) (mkpos 2 1 3))) c' evs) by (eexists; eexists; vm_compute; reflexivity).
     destruct E as [c' [evs E]].
-    pose proof (raise_sound2_pos al_G _ al_G_wf ex_C_void al_G_cm2 _ _ _ _ _ _ _ ltac:(simpl; lia) ltac:(apply B; repeat constructor) E) as S.
-    destruct S as [w [p [s0 [He [HX _]]]]]. inversion He; subst. exists s0. exact HX.
+    apply (raise_sound2_pos al_G _ al_G_wf ex_C_void al_G_cm2) in E; [|simpl; lia | apply B; repeat constructor].
+    destruct E as [w [p [s0 [He [HX _]]]]]. inversion He; subst. exists s0. exact HX.
   - assert (E : exists c' evs, eval al_G RaiseSound.ex_C 30 (mkdyn true true 0 0 0) 0%nat (mkcur [97; 44; 98] pos0)
                  = Res Fail c' evs) by (eexists; eexists; vm_compute; reflexivity).
     destruct E as [c' [evs E]].
-    exact (raise_sound2_pos al_G _ al_G_wf ex_C_void al_G_cm2 _ _ _ _ _ _ _ ltac:(simpl; lia) ltac:(apply B; repeat constructor) E).
+    apply (raise_sound2_pos al_G _ al_G_wf ex_C_void al_G_cm2) in E; [exact E | simpl; lia | apply B; repeat constructor].
   - assert (E : exists c' evs, eval al_G RaiseSound.ex_C 30 (mkdyn true true 0 0 0) 7%nat (mkcur [97; 44; 97; 59] pos0)
                  = Res (Exc (EParse (WRule 5%nat) (mkpos 3 1 4))) c' evs) by (eexists; eexists; vm_compute; reflexivity).
     destruct E as [c' [evs E]].
-    pose proof (raise_sound2_pos al_G _ al_G_wf ex_C_void al_G_cm2 _ _ _ _ _ _ _ ltac:(simpl; lia) ltac:(apply B; repeat constructor) E) as S.
-    destruct S as [w [p [s0 [He [HX _]]]]]. inversion He; subst. exists s0. exact HX.
+    apply (raise_sound2_pos al_G _ al_G_wf ex_C_void al_G_cm2) in E; [|simpl; lia | apply B; repeat constructor].
+    destruct E as [w [p [s0 [He [HX _]]]]]. inversion He; subst. exists s0. exact HX.
 Qed.
 
 Print Assumptions raise_complete2.
